@@ -2,6 +2,7 @@
 From Coq Require Import Strings.String Strings.Byte.
 From Coq Require Import List NArith ZArith.
 From Goit Require Import Bytes Obj Reflog ReflogFacts.
+From Goit Require Import World Repo BranchFacts JournalFacts.
 Import ListNotations.
 
 (* T1: one written line reads back with its id, kind and message — whatever the
@@ -47,6 +48,42 @@ Proof. exact show_reflog_positions. Qed.
 Theorem C11_show_total : forall rs, length (show_reflog rs) = length rs.
 Proof. exact show_reflog_total. Qed.
 
+
+(* ---------- Part 2: every history ---------- *)
+(* logs/HEAD is only ever appended to, by every command and edit, whatever the outcome *)
+Theorem C11_journal_append_only : forall h w, exists suffix, hlog_bytes (run h w) = hlog_bytes w ++ suffix.
+Proof. exact hlog_append_only_run. Qed.
+
+(* after ANY history whose branch-name arguments contain no line break (the
+   program now refuses those) the journal reads back *)
+Theorem C11_journal_always_reads_back : forall h,
+  Forall action_names_clean h -> exists rs, parse_reflog (hlog_bytes (run h w_empty)) = Some rs.
+Proof. exact journal_reads_back. Qed.
+
+(* an accepted command extends the parsed journal at its end: all earlier
+   entries keep their content and relative order; commit, switch and reset add
+   exactly one entry (a rename two), every other command none *)
+Theorem C11_reflog_extends : forall e c w w' out tr,
+  JInv w -> cmd_names_clean c -> step (ACmd e c) w = (w', OOk out, tr) ->
+  exists rs, parse_reflog (hlog_bytes w) = Some rs /\
+             parse_reflog (hlog_bytes w') = Some (rs ++ journal_delta c w w').
+Proof. exact reflog_extends. Qed.
+
+(* and for commit / switch / reset the new entry, shown by `reflog` at HEAD@{0},
+   names the commit HEAD now resolves to, with the kind of the action *)
+Theorem C11_head_entry : forall e c w w' out tr ty,
+  JInv w -> cmd_names_clean c -> step (ACmd e c) w = (w', OOk out, tr) -> journal_kind c = Some ty ->
+  exists rs' r, parse_reflog (hlog_bytes w') = Some rs' /\ get_record rs' 0 = Some r /\ r_type r = ty /\
+    r_id r = id_back (head_id w') /\
+    nth_error (show_reflog rs') 0 = Some (short_id (r_id r), 0, ty, r_msg r).
+Proof. exact reflog_head_entry. Qed.
+
+(* `reflog` is total on every journal that parses *)
+Theorem C11_reflog_total : forall w hl t fk,
+  JournalOk w -> w_hlog w = Some hl ->
+  exists out, cmd_reflog (mkMS w t fk) = (Ok out, mkMS w t fk).
+Proof. exact reflog_total. Qed.
+
 Print Assumptions C11_line_roundtrip.
 Print Assumptions C11_first_line_has_no_newline.
 Print Assumptions C11_append.
@@ -54,3 +91,8 @@ Print Assumptions C11_positions_shift.
 Print Assumptions C11_show_agrees_with_get_record.
 Print Assumptions C11_show_positions.
 Print Assumptions C11_show_total.
+Print Assumptions C11_journal_append_only.
+Print Assumptions C11_journal_always_reads_back.
+Print Assumptions C11_reflog_extends.
+Print Assumptions C11_head_entry.
+Print Assumptions C11_reflog_total.
